@@ -77,3 +77,6 @@ Example F15_from_text :
   wf_obs "type A = aff (mul /\ mul 1)" =
   "OK" ^^ tab ^^ "type A mul (up mul mul (1 mul))" ^^ tab ^^ "A=(up mul mul (1 mul))".
 Proof. vm_compute. reflexivity. Qed.
+
+Lemma F23_rejected_class : exists l, wf_obs f23_text = "REJECT:def-mode-mismatch" ^^ l.
+Proof. eexists. exact F23_rejected. Qed.
